@@ -317,6 +317,17 @@ func genC02Tx(t *rapid.T, p *gen.Profile, pools *gen.Pools) (*m.Tx, string) {
 			class = "balanced-explicit"
 		}
 	}
+	// (parenthesised) postings without an amount: outside the rule altogether — they neither
+	// absorb a remainder nor count as a missing amount
+	if rapid.IntRange(0, 3).Draw(t, "parenless") == 0 {
+		n := rapid.IntRange(1, 2).Draw(t, "nparenless")
+		for i := 0; i < n; i++ {
+			po := mkPosting(true)
+			po.Kind = 2
+			posts = append(posts, po)
+		}
+		class += "+paren-amountless"
+	}
 	// shuffle so the cancelling / amount-less postings are not always last
 	order := rapid.Permutation(seq(len(posts))).Draw(t, "order")
 	for _, i := range order {
